@@ -1,0 +1,9 @@
+//go:build verif
+
+// Contracts for the verification machinery in /verif (comment-only; compiled only with -tags verif).
+package common
+
+//@ func UseMemory
+//@   inline
+//@ func UseComputation
+//@   inline
